@@ -27,10 +27,13 @@ impl RemoveSingleNode {
         &&& s.shrunk_counter_ok(single(self.node), self.vehicle)
         &&& s.removes(single(self.node), self.vehicle) ==> s.tfu_pre(s.train_formations@, s.unserved_passengers,
                 Some(self.vehicle), None::<Vehicle>, self.removed(s))
+        // C10 listings: needed when the node is the vehicle's only activity (remove_segment then deletes the vehicle)
+        &&& s.removes(single(self.node), self.vehicle) && s.whole_tour(single(self.node), self.vehicle) ==> s.listed_ok(self.vehicle)
     }
-    /// the vehicle keeps a tour (the removal is not delegated to replace_vehicle_by_dummy, which is not under contract here)
+    /// the vehicle keeps a tour (the node is not its only activity; the whole-tour case has its own clauses in
+    /// remove_segment's contract)
     pub open spec fn keeps_tour(&self, s: &Schedule, r: Result<Schedule, String>) -> bool {
-        s.removes(single(self.node), self.vehicle) && r != spec_replace_by_dummy(s, self.vehicle)
+        s.removes(single(self.node), self.vehicle) && !s.whole_tour(single(self.node), self.vehicle)
     }
     /// C11 for this move: "the candidate is itself a structurally valid schedule whose cached objective components equal
     /// their recomputed values" -- as far as remove_segment's contract carries
